@@ -292,6 +292,7 @@ class World:
         self._held = {}
         self.delivered = []  # (t, client endpoint, data) in the order handed to datagram_received
         self.in_flight = 0  # datagrams scheduled but not yet delivered
+        self.expect_leftover = False  # set by a check that has already reported an unkillable task as a violation
 
     # -- ownership tags (which phase opened an endpoint)
     def current_owner_tag(self):
@@ -450,7 +451,8 @@ class World:
                         break
                     for t in others:
                         t.cancel()
-                    await asyncio.gather(*others, return_exceptions=True)
+                    # bounded (virtual seconds): a task that swallows its cancellation must not hang the harness
+                    await asyncio.wait(others, timeout=5.0)
                 result["leftover"] = [t.get_name() for t in asyncio.all_tasks() if t is not me and not t.done()]
 
         _time.monotonic = self.clock.now
@@ -464,7 +466,7 @@ class World:
             finally:
                 asyncio.set_event_loop(None)
             reset_globals()
-        if result.get("leftover"):
+        if result.get("leftover") and not self.expect_leftover:
             raise HarnessError(f"tasks outlived the case: {result['leftover']}")
         return result.get("value")
 
